@@ -88,6 +88,11 @@ func (ht histTest) run(t *testing.T) {
 			return hp[0], r, true
 		}
 		if ps := ht.oracle(r); len(ps) > 0 {
+			for _, p := range ps { // verdicts before harness-level outcomes
+				if p.Prop != "HARNESS" {
+					return p, r, true
+				}
+			}
 			return ps[0], r, true
 		}
 		return Problem{}, r, false
